@@ -124,3 +124,12 @@ func (e *EncryptionSession) VfSeqSnap() [4]uint64 {
 
 // VfPeerSession returns the (pre-created) session for ip.
 func (st *State) VfPeerSession(ip netip.Addr) *Session { return st.sessions[ip] }
+
+// VfHasRouter reports whether the storage holds a record for ip.
+func (st *State) VfHasRouter(ip netip.Addr) bool {
+	r, err := st.storage.GetRouter(ip)
+	return err == nil && r != nil
+}
+
+// VfSetSignLatest puts the signed-frame timestamp handler of the session into a given state.
+func (s *Session) VfSetSignLatest(t time.Time) { s.Signing().seqHandler.latest = t }
